@@ -41,12 +41,20 @@ def gen(chk, tier):
             for t in range(len(progs)):
                 cases.append(qc.case_line("c02", pre, progs, s, " solo=%d" % t))
     chk.cov["states"] = nst
+    # nil VALUES (token P0 = Push(nil), prefill 0): the queue tolerates them; a Pop that takes one returns nil
+    nl = []
+    for pre, progs in [([0], [["O"], ["P1"]]), ([], [["P0", "O"], ["O"]]), ([0, 7], [["O", "O"], ["P0"]]), ([], [["P0"], ["P0"], ["O"]]),
+                       ([5, 0], [["O"], ["O"], ["P2"]])]:
+        n, scheds = qc.enum_schedules(pre, progs, "edges", 600 if quick else 20000)
+        for s in scheds:
+            for t in range(len(progs)):
+                nl.append(qc.case_line("c02", pre, progs, s, " solo=%d" % t))
     rd = []
     for pre, progs in qc.programs_medium(rng, 200 if quick else 5000, [(3, 4), (4, 3), (4, 5)]):
         total = sum(len(p) for p in progs)
         s = qc.random_schedule(rng, len(progs), rng.range(3, 7 * total))
         rd.append(qc.case_line("c02", pre, progs, s, " solo=%d" % rng.below(len(progs))))
-    return [("solo-from-every-reachable-state", cases), ("solo-after-random-prefix", rd)]
+    return [("solo-from-every-reachable-state", cases), ("solo-after-random-prefix", rd), ("nil-values", nl)]
 
 
 def run(chk):
@@ -64,6 +72,25 @@ def run(chk):
         from . import pure
         streams = [("corpus", pure.corpus_cases("C02"))] + gen(chk, chk.tier)
         pure.run_streams(chk, binary, streams, compare, qc.monitor_c02, nontrivial)
+        # runtime dependence: the same solo runs with a single P (GOMAXPROCS=1: nothing may depend on another
+        # goroutine getting the processor); a sample of every stream, implementation side against the same model answers
+        import os
+        one = [c for _, cs in streams for c in cs[:: max(1, len(cs) // 400)]]
+        try:
+            impl1 = common.run_impl(binary, one, env=dict(os.environ, GOMAXPROCS="1"))
+            model1 = common.run_model(one)
+            for c, m, i in zip(one, model1, impl1):
+                chk.count_case("solo-single-P", c, True)
+                mf = qc.monitor_c02(c, i)
+                if mf:
+                    chk.monitor_fail(mf[0], c + "  [GOMAXPROCS=1]", i, mf[1] + " (with GOMAXPROCS=1)")
+                else:
+                    note = compare(c, m, i)
+                    if note:
+                        chk.diverge("solo-single-P", c + "  [GOMAXPROCS=1]", m, i, note)
+        except common.ImplCrash as e:
+            chk.monitor_fail("solo-hang", "sample of %d cases with GOMAXPROCS=1" % len(one), str(e)[-300:],
+                             "the solo runs did not finish with GOMAXPROCS=1: " + str(e)[-200:])
         # histogram of solo lengths (from the implementation side)
     chk.finish(search=search)
 
